@@ -440,9 +440,15 @@ def check(spec, ctx):
         signal.signal(signal.SIGALRM, old)
         gt.optimize_geometry = orig_opt
     # (4) optimiser verdicts
-    for block, coords, success, inter_types in calls:
+    last_call = {}
+    for num, (block, _c, _s, _t) in enumerate(calls):
+        last_call[id(block)] = num
+    for num, (block, coords, success, inter_types) in enumerate(calls):
         if not success:
             continue
+        if last_call[id(block)] == num:
+            # the verdict the template is accepted on: every kind of target counts, whatever list was handed over
+            inter_types = ["bonds", "constraints", "angles", "dihedrals"]
         for sec in inter_types:
             for it in block.interactions.get(sec, []):
                 pts = [coords[a] for a in it.atoms]
